@@ -52,6 +52,7 @@ type flowParams struct {
 	IdleBatches    []int               `json:"idle_batches"`     // source batches whose first read waits until no timer is left (quiet period)
 	LatePut        bool                `json:"late_put"`         // non-transactional store writes (pipeline status) stay in flight until nothing else can run
 	SiteWide       bool                `json:"site_wide"`        // preemptive part: hold every goroutine reaching the armed site
+	AckSendFaults  bool                `json:"ack_send_faults"`  // every ack the engine sends to a source plugin may fail transiently (transport)
 	LateAckRecv    bool                `json:"late_ack_recv"`    // source plugins are slow to receive acks (exploration order)
 	GateDestOpen   bool                `json:"gate_dest_open"`   // destination Open calls are pending events with answers {ok, err}
 	NoMatch        []int               `json:"no_match"`         // records that do not match the processors' condition (Cond: "match")
@@ -127,6 +128,9 @@ func (p flowParams) name() string {
 	if p.SiteWide {
 		n += "/sitewide"
 	}
+	if p.AckSendFaults {
+		n += "/acksendfaults"
+	}
 	if p.LateAckRecv {
 		n += "/lateackrecv"
 	}
@@ -180,7 +184,7 @@ func (p flowParams) topology() stack.Topology {
 			}
 			batches = append(batches, b)
 		}
-		ss := fakes.SourceScript{Name: fmt.Sprintf("s%d", s), Batches: batches, ReadMenu: p.ReadMenu, NoMatch: p.NoMatch, LateAckRecv: p.LateAckRecv, IdleBatches: p.IdleBatches}
+		ss := fakes.SourceScript{Name: fmt.Sprintf("s%d", s), Batches: batches, ReadMenu: p.ReadMenu, NoMatch: p.NoMatch, LateAckRecv: p.LateAckRecv, IdleBatches: p.IdleBatches, AckSendFaults: p.AckSendFaults}
 		switch p.SrcPositions {
 		case "bare":
 			ss.Bare = []int{1}
